@@ -18,7 +18,7 @@ def ctor_cfg(tier, ctors):
                       "INVARIANT Inv", "INVARIANT Export", "CHECK_DEADLOCK FALSE", ""])
 
 
-def ctor_stage(prop, tier, name, ctors, faults):
+def ctor_stage(prop, tier, name, ctors, faults, only_cats=None):
     wd = workdir(prop)
     stage_spec(wd, ["Ctor.tla", "MC_Ctor.tla"])
     exe = build_harness("a")
@@ -49,6 +49,10 @@ def ctor_stage(prop, tier, name, ctors, faults):
     res["rule"] = ("one run per terminal state of Ctor.tla (constructor x actual length x reported lengths/hints x panic point x capacity slack); "
                    "non-trivial = a fault is injected or the input misreports (C07), every length/constructor/hint regime (C06)")
     for v in s["violations"]:
+        if only_cats:
+            v["errors"] = [e for e in v["errors"] if e.startswith("[") and e[1:e.index("]")] in only_cats]
+            if not v["errors"]:
+                continue
         c = v["case"]
         key = "ctor:%s:a=%s:k=%s:l1=%s:l2=%s:lo=%s:up=%s:cap=%s:v=%s" % (c["ctor"], c["a"], c["k"], c["l1"], c["l2"], c["lo"], c["up"], c["cap"], v["variant"])
         res["violations"].append({"stage": name, "key": key, "errors": v["errors"], "case": c, "variant": v["variant"]})
